@@ -38,8 +38,10 @@ TRUSTED = [
     "that loop; the statements in front of it are pinned and stand for St.init); the atom table CMD spec of "
     "harness/pygen_pxcmd.py: the regular expressions are the hand recognisers splitArg / netsKey / vmKey, every "
     "statement that updates the loop state is pinned verbatim to a named action of StateT St (Except Err) printed in "
-    "I2N/Extracted/GenCmd.lean (among them the two inner loops: primary detection, and the first-matching-vm search "
-    "with its `else: raise`); log-only variables and exception messages dropped",
+    "I2N/Extracted/GenCmd.lean; the three inner loops (primary detection, first-matching-vm search with its `else: "
+    "raise`, `vms=` validation) are translated through the opt-in `effect_loops` shapes of harness/pygen.py "
+    "(`match L.find? c`, `L.forM fun x => do …`; scan_loop_matches / vms_loop_matches / vm_body_matches relate them to "
+    "the hand model's one-shot updates); log-only variables and exception messages dropped",
 ]
 
 
